@@ -79,7 +79,7 @@ var typeError = reflect.TypeOf((*error)(nil)).Elem()
 
 func newYarnSpinnerFunction(function any) (YarnSpinnerFunction, error) {
 	functionType := reflect.TypeOf(function)
-	if functionType.Kind() != reflect.Func {
+	if functionType == nil || functionType.Kind() != reflect.Func {
 		return nil, fmt.Errorf("newYarnSpinnerFunction expects an argument which is a function")
 	}
 
@@ -228,7 +228,7 @@ func createInputConverter(functionType reflect.Type) (func([]*variable.Value) ([
 			if err != nil {
 				return nil, fmt.Errorf("failed to convert argument number %d: %w", i, err)
 			}
-			inputParameters = append(inputParameters, inputParameter)
+			inputParameters = append(inputParameters, inputParameter.Convert(functionType.In(i)))
 		}
 
 		return inputParameters, nil
@@ -262,7 +262,7 @@ func createVariadicInputConverter(functionType reflect.Type) (func([]*variable.V
 			if err != nil {
 				return nil, fmt.Errorf("failed to convert argument number %d: %w", i, err)
 			}
-			inputParameters = append(inputParameters, inputParameter)
+			inputParameters = append(inputParameters, inputParameter.Convert(functionType.In(i)))
 		}
 
 		for i := numIn - 1; i < len(args); i++ {
@@ -270,7 +270,7 @@ func createVariadicInputConverter(functionType reflect.Type) (func([]*variable.V
 			if err != nil {
 				return nil, fmt.Errorf("failed to convert argument number %d: %w", i, err)
 			}
-			inputParameters = append(inputParameters, inputParameter)
+			inputParameters = append(inputParameters, inputParameter.Convert(functionType.In(numIn-1).Elem()))
 		}
 
 		return inputParameters, nil
